@@ -153,7 +153,7 @@ func init() {
 			}
 			n := 25
 			if g.Thorough() {
-				n = 600
+				n = 3000
 			}
 			for i := 0; i < n; i++ {
 				var cs []string
